@@ -230,8 +230,15 @@ def run(ctx):
     # 2. regression witness V20 (list arguments of spawn by reference)
     v20_lines = [f"w {i} {j} {3 + j}" for i in (1, 2) for j in range(20)] + [f"m {j}" for j in range(20)]
     run_batch(ctx, [plain_prog(V20_SRC, v20_lines, 3)], "C17 regression", False, 8, race=race)
-    # 3. generated programs
+    # 2b. staggered spawns: late cores are spawned after earlier ones were collected while others still run
     rng = ctx.rng
+    stag = [plain_prog('fn quick(id: int) { println("quick", id); }\nfn slow(id: int, t: float) { time.sleep(t); println("slow", id); }\n'
+                       'fn main() { spawn quick(1); spawn slow(2, 0.06); time.sleep(0.03); spawn slow(3, 0.12); println("main done"); }\n',
+                       ["quick 1", "slow 2", "slow 3", "main done"], 4)]
+    stag += [H.gen_spawn_staggered(rng) for _ in range(6 if ctx.tier == "quick" else 40)]
+    run_batch(ctx, stag, "C17 staggered", False, 2 if ctx.tier == "quick" else 3, race=race)
+    ctx.coverage["staggered_programs"] = len(stag)
+    # 3. generated programs
     n = 160 if ctx.tier == "quick" else 1500
     progs = []
     for i in range(n):
